@@ -1357,16 +1357,24 @@ def check_forget_scope(ck, cm: CacheModel):
             return None
         ids = f2.nodes(lk)
         x = f2.expand(e, ids[0]) if ids else e
+
+        def whole(part) -> bool:
+            """the argument IS that part of the path (possibly wrapped: DataSourceKey(..), str(..), cast(T, ..)), not something
+            computed from it (a slice of the basename selects more than the call)"""
+            y = x
+            while isinstance(y, ast.Call) and not y.keywords and y is not part and ((len(y.args) == 1 and A.call_attr(y) in ("str", "DataSourceKey", "fspath")) or (len(y.args) == 2 and A.call_attr(y) == "cast")):
+                y = y.args[-1]
+            return y is part
         hits = [c_ for c_ in ast.walk(x) if isinstance(c_, ast.Call) and A.call_attr(c_) == fn_name and len(c_.args) == 1]
         if len(hits) == 1:
-            return hits[0].args[0]
+            return hits[0].args[0] if whole(hits[0]) else None
         # pathlib: PurePosixPath(P).parent / .name
         attr = "parent" if fn_name == "dirname" else "name"
         ph = [a_ for a_ in ast.walk(x) if isinstance(a_, ast.Attribute) and a_.attr == attr and isinstance(a_.value, ast.Call)
               and A.call_attr(a_.value) in ("PurePosixPath", "PurePath", "Path", "PosixPath") and len(a_.value.args) == 1 and not a_.value.keywords]
         if len(ph) == 1:
-            return ph[0].value.args[0]
-        for nm in [n_ for n_ in ast.walk(x) if isinstance(n_, ast.Name)]:
+            return ph[0].value.args[0] if whole(ph[0]) else None
+        for nm in [n_ for n_ in ast.walk(x) if isinstance(n_, ast.Name) and whole(n_)]:
             for d_ in (f2.df.reaching(ids[0], nm.id) if ids else []):
                 st_ = d_.stmt if d_.stmt is not None else (f2.cfg.node(d_.node).ast if d_.node >= 0 else None)
                 if isinstance(st_, ast.Assign) and len(st_.targets) == 1 and isinstance(st_.targets[0], ast.Tuple) and len(st_.targets[0].elts) == 2 \
